@@ -398,6 +398,15 @@ def _run_unit(u: Unit, char: str, workroot: str, canary=False, keep=False, repo=
         if not res.canary_ok:
             res.reason = "canary did not fail: preconditions are vacuous or canary missing"
     else:
+        nobody = sorted(set(r.get("property", "").split(".no-body.")[-1] for r in fails if ".no-body." in r.get("property", "")))
+        if nobody:
+            # the code under proof calls a function this unit has neither a body nor a contract for (e.g. a helper newly added to
+            # another source file): CBMC lets it return anything, so every other failure of this run may be an artefact
+            res.status = "undecided"
+            res.reason = "calls %s, for which this unit has no contract or body (new cross-file helper?): not decidable here" % ", ".join(nobody)
+            res.failed = []
+            res.wall_s = time.time() - t0
+            return res
         real = [r for r in fails if ".unwind." not in r.get("property", "")
                 and ".recursion" not in r.get("property", "")]
         if fails and not real:
